@@ -1,8 +1,8 @@
 (* Hand-modelled, self-delimiting fragments of the wire format: for each irregular codec a
    recogniser that splits one encoding off the front of a byte string. *)
 From Coq Require Import String.
-From Coq Require Import List NArith Lia Bool PeanoNat.
-From Sia Require Import Prim.Tok Codec.Schema.
+From Coq Require Import List NArith Lia Bool PeanoNat ZifyN ZifyNat ZifyBool.
+From Sia Require Import Prim.Tok Codec.Schema Codec.Canonical Codec.PolicyWire.
 Import ListNotations.
 Open Scope N_scope.
 
@@ -48,57 +48,50 @@ Proof.
   rewrite take_app by exact Ha. rewrite (recog_v1cur_ok c2 _ Hc2). reflexivity.
 Qed.
 
-(* SpendPolicy: version byte 1, then the recursive policy encoding (depth-limited as the decoder).
-   Executable recogniser; its round-trip lemma is not proved yet, so it is not part of [rvalid]. *)
-Fixpoint recog_policy_body (fuel : nat) (b : bytes) : option (bytes * bytes) :=
-  match fuel with
-  | O => None
-  | S f =>
-    match b with
-    | 1 :: r => option_map (fun '(h, r') => (1 :: h, r')) (take 8 r)
-    | 2 :: r => option_map (fun '(h, r') => (2 :: h, r')) (take 8 r)
-    | 3 :: r => option_map (fun '(h, r') => (3 :: h, r')) (take 32 r)
-    | 4 :: r => option_map (fun '(h, r') => (4 :: h, r')) (take 32 r)
-    | 6 :: r => option_map (fun '(h, r') => (6 :: h, r')) (take 32 r)
-    | 5 :: n :: k :: r =>
-      (fix loop (cnt : nat) (acc : bytes) (r : bytes) : option (bytes * bytes) :=
-         match cnt with
-         | O => Some (5 :: n :: k :: acc, r)
-         | S c => match recog_policy_body f r with
-                  | Some (p, r') => loop c (acc ++ p) r'
-                  | None => None
-                  end
-         end) (N.to_nat k) [] r
-    | 7 :: r =>
-      (* unlock conditions: timelock, key slice, sigs required *)
-      match take 16 r with
-      | Some (h, r1) =>
-        let nk := le_val (skipn 8 h) in
-        if nk <=? N.of_nat (length r1) then
-          (fix keys (cnt : nat) (acc : bytes) (r : bytes) : option (bytes * bytes) :=
-             match cnt with
-             | O => option_map (fun '(t, r') => (7 :: h ++ acc ++ t, r')) (take 8 r)
-             | S c =>
-               match take 24 r with
-               | Some (kh, r') =>
-                 let kl := le_val (skipn 16 kh) in
-                 if kl <=? N.of_nat (length r') then
-                   match take (N.to_nat kl) r' with Some (kd, r'') => keys c (acc ++ kh ++ kd) r'' | None => None end
-                 else None
-               | None => None
-               end
-             end) (N.to_nat nk) [] r1
-        else None
-      | None => None
-      end
-    | _ => None
-    end
-  end.
-Definition recog_policy (b : bytes) : option (bytes * bytes) :=
-  match b with
-  | 1 :: r => option_map (fun '(p, r') => (1 :: p, r')) (recog_policy_body 40 r)
-  | _ => None
-  end.
+(* soundness: what the recognisers split off is a valid fragment and a prefix of the input *)
+Lemma recog_v1cur_sound b x r : byte_okl b -> recog_v1cur b = Some (x, r) -> b = (x ++ r) /\ valid_v1cur x.
+Proof.
+  intros O E. unfold recog_v1cur in E.
+  destruct (take 8 b) as [[h r1]|] eqn:T; [|discriminate].
+  destruct (le_val h <=? 16) eqn:L16; [|discriminate].
+  destruct (take (N.to_nat (le_val h)) r1) as [[d r2]|] eqn:T2; [|discriminate]. inversion E; subst.
+  destruct (take_split _ _ _ _ T) as [-> L]. destruct (take_split _ _ _ _ T2) as [-> L2].
+  destruct (byte_okl_app _ _ O) as [Oh _].
+  split; [rewrite <- app_assoc; reflexivity|]. exists d. split; [lia|].
+  assert (E2 : N.of_nat (length d) = le_val h) by lia. rewrite E2. rewrite <- L at 1. rewrite (le_bytes_val h Oh). reflexivity.
+Qed.
+Lemma recog_v1sfo_sound b x r : byte_okl b -> recog_v1sfo b = Some (x, r) -> b = (x ++ r) /\ valid_v1sfo x.
+Proof.
+  intros O E. unfold recog_v1sfo in E.
+  destruct (recog_v1cur b) as [[c r1]|] eqn:R1; [|discriminate].
+  destruct (v1cur_fits64 c) eqn:F; [|discriminate].
+  destruct (take 32 r1) as [[a r2]|] eqn:T; [|discriminate].
+  destruct (recog_v1cur r2) as [[c2 r3]|] eqn:R2; [|discriminate]. inversion E; subst.
+  destruct (recog_v1cur_sound _ _ _ O R1) as [-> V1]. destruct (byte_okl_app _ _ O) as [_ O1].
+  destruct (take_split _ _ _ _ T) as [-> La]. destruct (byte_okl_app _ _ O1) as [_ O2].
+  destruct (recog_v1cur_sound _ _ _ O2 R2) as [-> V2].
+  split; [rewrite <- !app_assoc; reflexivity|]. exists c, a, c2. repeat split; auto.
+Qed.
+
+(* extension stability: the recognisers do not look past what they consume *)
+Lemma recog_v1cur_extend b x r q : recog_v1cur b = Some (x, r) -> recog_v1cur (b ++ q) = Some (x, r ++ q).
+Proof.
+  intros E. unfold recog_v1cur in E |- *.
+  destruct (take 8 b) as [[h r1]|] eqn:T; [|discriminate]. rewrite (take_extend _ _ _ _ q T).
+  destruct (le_val h <=? 16); [|discriminate].
+  destruct (take (N.to_nat (le_val h)) r1) as [[d r2]|] eqn:T2; [|discriminate]. inversion E; subst.
+  rewrite (take_extend _ _ _ _ q T2). reflexivity.
+Qed.
+Lemma recog_v1sfo_extend b x r q : recog_v1sfo b = Some (x, r) -> recog_v1sfo (b ++ q) = Some (x, r ++ q).
+Proof.
+  intros E. unfold recog_v1sfo in E |- *.
+  destruct (recog_v1cur b) as [[c r1]|] eqn:R1; [|discriminate]. rewrite (recog_v1cur_extend _ _ _ q R1).
+  destruct (v1cur_fits64 c); [|discriminate].
+  destruct (take 32 r1) as [[a r2]|] eqn:T; [|discriminate]. rewrite (take_extend _ _ _ _ q T).
+  destruct (recog_v1cur r2) as [[c2 r3]|] eqn:R2; [|discriminate]. inversion E; subst.
+  rewrite (recog_v1cur_extend _ _ _ q R2). reflexivity.
+Qed.
+(* SpendPolicy: Codec/PolicyWire.v *)
 
 Open Scope string_scope.
 Definition recog (name : string) (b : bytes) : option (bytes * bytes) :=
@@ -107,19 +100,40 @@ Definition recog (name : string) (b : bytes) : option (bytes * bytes) :=
   else if name =? "types.SpendPolicy" then recog_policy b
   else None.
 Definition rvalid (name : string) (b : bytes) : Prop :=
-  (name = "types.V1Currency" /\ valid_v1cur b) \/ (name = "types.V1SiafundOutput" /\ valid_v1sfo b).
+  (name = "types.V1Currency" /\ valid_v1cur b) \/ (name = "types.V1SiafundOutput" /\ valid_v1sfo b) \/
+  (name = "types.SpendPolicy" /\ valid_policy b).
 
 Lemma recog_ok name b rest : rvalid name b -> recog name (b ++ rest)%list = Some (b, rest).
 Proof.
-  intros [[-> H]|[-> H]]; unfold recog; simpl.
+  intros [[-> H]|[[-> H]|[-> H]]]; unfold recog; cbn [String.eqb Ascii.eqb Bool.eqb].
   - now apply recog_v1cur_ok.
   - now apply recog_v1sfo_ok.
+  - now apply recog_policy_ok.
 Qed.
 Lemma rvalid_nonempty name b : rvalid name b -> (1 <= length b)%nat.
 Proof.
-  intros [[_ (d & _ & ->)]|[_ (c & a & c2 & (d & _ & ->) & _ & _ & _ & ->)]].
+  intros [[_ (d & _ & ->)]|[[_ (c & a & c2 & (d & _ & ->) & _ & _ & _ & ->)]|[_ V]]].
   - rewrite app_length, le_bytes_length. lia.
   - rewrite !app_length, le_bytes_length. lia.
+  - now apply valid_policy_nonempty.
+Qed.
+
+
+Lemma recog_sound name b x r : byte_okl b -> recog name b = Some (x, r) -> b = (x ++ r)%list /\ rvalid name x.
+Proof.
+  intros O E. unfold recog in E. destruct (name =? "types.V1Currency") eqn:A.
+  - apply String.eqb_eq in A. subst. destruct (recog_v1cur_sound _ _ _ O E) as [-> V]. split; [reflexivity | left; auto].
+  - destruct (name =? "types.V1SiafundOutput") eqn:B.
+    + apply String.eqb_eq in B. subst. destruct (recog_v1sfo_sound _ _ _ O E) as [-> V]. split; [reflexivity | right; left; auto].
+    + destruct (name =? "types.SpendPolicy") eqn:C; [|discriminate].
+      apply String.eqb_eq in C. subst. destruct (recog_policy_sound _ _ _ O E) as [-> V]. split; [reflexivity | right; right; auto].
+Qed.
+
+Lemma recog_extend name b x r q : recog name b = Some (x, r) -> recog name (b ++ q)%list = Some (x, (r ++ q)%list).
+Proof.
+  unfold recog. destruct (name =? "types.V1Currency"); [apply recog_v1cur_extend|].
+  destruct (name =? "types.V1SiafundOutput"); [apply recog_v1sfo_extend|].
+  destruct (name =? "types.SpendPolicy"); [apply recog_policy_extend | discriminate].
 Qed.
 
 (* the translator's opaque methods must be exactly these hand-listed ones *)
